@@ -550,7 +550,7 @@ class Exec:
         if isinstance(f, PyConst) and isinstance(f.v, tuple) and f.v[0] == 'builtin':
             name = f.v[1]
             if name == 'float': return to_real(args[0])
-            if name == 'bool': return truth(args[0])
+            if name == 'bool': return self.truth(args[0], heap)
             if name == 'abs':
                 x = to_real(args[0]); return z3.If(x >= 0, x, -x)
             if name == 'len':
